@@ -63,8 +63,8 @@ package fox
 //@   assert-at call call#6 : @C12 live-context: !released[arg_c]
 //@   ensures one-handler: hCalls == old(hCalls) + 1
 //@   ensures request: hReq == r
-//@   ensures @C08,C11,C12,C17,C13 direct: old(isDirect(fox, r)) ==> hFn == old(sn(fox, r).route.hall) && hRoute == old(sn(fox, r).route) && !hTsr && hScope == RouteHandler
-//@   ensures @C08,C11,C12,C17,C13 ignore: old(!isDirect(fox, r) && isIgnore(fox, r)) ==> hFn == old(sn(fox, r).route.hall) && hRoute == old(sn(fox, r).route) && hTsr && hScope == RouteHandler
+//@   ensures @C08,C11,C12,C17,C13,C01 direct: old(isDirect(fox, r)) ==> hFn == old(sn(fox, r).route.hall) && hRoute == old(sn(fox, r).route) && !hTsr && hScope == RouteHandler
+//@   ensures @C08,C11,C12,C17,C13,C01 ignore: old(!isDirect(fox, r) && isIgnore(fox, r)) ==> hFn == old(sn(fox, r).route.hall) && hRoute == old(sn(fox, r).route) && hTsr && hScope == RouteHandler
 //@   ensures @C08,C11,C12,C17,C19,C20 redirect: old(!isDirect(fox, r) && isRedirect(fox, r)) ==> hFn == old(fox.tsrRedirect) && hRoute == nil && !hTsr && hScope == RedirectHandler && hNParams == 0
 //@   ensures redirect-only-clean: hScope == RedirectHandler ==> old(isRedirect(fox, r))
 //@   ensures @C08,C11,C12,C17,C19,C20 unserved: old(!isDirect(fox, r) && !isIgnore(fox, r) && !isRedirect(fox, r)) ==> hRoute == nil && !hTsr && hNParams == 0 && (hScope == OptionsHandler || hScope == NoMethodHandler || hScope == NoRouteHandler)
